@@ -1580,10 +1580,12 @@ func rebuildImpl(args rebuildArgs, oldHashes map[string]string) (rebuildState, m
 				toWriteToStdout = results[0].Contents
 			}
 		} else {
-			// Delete old files that are no longer relevant
+			// Delete old files that are no longer relevant. But never delete a file
+			// that is an input file of this build (e.g. when an earlier build has
+			// overwritten the input file because "allowOverwrite" is enabled).
 			var toDelete []string
 			for absPath := range oldHashes {
-				if _, ok := newHashes[absPath]; !ok {
+				if _, ok := newHashes[absPath]; !ok && !bundle.ContainsInputFile(absPath) {
 					toDelete = append(toDelete, absPath)
 				}
 			}
